@@ -203,7 +203,8 @@ class _Ctx:
                     # reduced expression must still use the configuration captured at creation
                     from furax._base.core import InverseOperator
                     red = (2 * inv).reduce()
-                    inner = [o for o in getattr(red, 'operands', [red]) if isinstance(o, InverseOperator)]
+                    inner = [o for o in st['jax'].tree.leaves(red, is_leaf=lambda o: isinstance(o, InverseOperator))
+                             if isinstance(o, InverseOperator)]        # wherever the reduced expression keeps it
                     out['cap_red'] = _project(inner[0].config) if len(inner) == 1 else {'solver': 99, 'throw': 99, 'cb': 99}
                     del st['fired'][:]
                     with contextlib.redirect_stdout(io.StringIO()):
